@@ -369,12 +369,15 @@ def cmdShape (st : State) (fv : List Int) (gs : List String) : List String :=
   | none => ["bad-op"]
   | some gids =>
     let tbl := st.ir.gattrValues
-    let p : Eng.Prog := { ir := st.ir, nuser := st.ir.numUser, feats := fun f => fv.getD f 0,
+    let p : Eng.Prog := { ir := st.ir, nuser := st.ir.numUser, feats := fun f => fv.getD f 0, advOf := fun g => st.ir.advances.getD g 0,
                           gvals := fun g a => match tbl.find? (·.1 == g) with | some (_, vs) => vs.getD a 0 | none => 0 }
     let (out, stalled) := Eng.shape p gids
-    let item (s : Eng.Slot) : String :=
-      "[" ++ toString s.gid ++ "," ++ toString s.before ++ "," ++ toString s.after ++ ",[" ++ ",".intercalate (s.user.map toString) ++ "]," ++ (if s.assocOk then "1" else "0") ++ "]"
-    [(if stalled then "stalled " else "") ++ "[" ++ ",".intercalate (out.map item) ++ "]"]
+    let pos := Eng.positions out
+    let item (sp : Eng.Slot × (Int × Int)) : String :=
+      let s := sp.1
+      "[" ++ toString s.gid ++ "," ++ toString s.before ++ "," ++ toString s.after ++ ",[" ++ ",".intercalate (s.user.map toString) ++ "]," ++ (if s.assocOk then "1" else "0")
+        ++ "," ++ toString sp.2.1 ++ "," ++ toString sp.2.2 ++ "," ++ toString s.advX ++ "]"
+    [(if stalled then "stalled " else "") ++ "[" ++ ",".intercalate ((out.zip pos).map item) ++ "]"]
 
 def _root_.Grc.RuleIR.effective (r : RuleIR) : Bool :=
   r.items.any fun it => it.mod ∧ (it.inCls.isNone ∨ it.out.isSome ∨ !it.attrs.isEmpty)
